@@ -26,7 +26,7 @@ theorem setTask_length (ts : List TaskRow) (r : TaskRow) : (setTask ts r).length
 
 /-! ### the dispatcher creates nothing while PAUSED or after completion -/
 
-theorem dispatchOne_inert (sp : Spec) (w : World) (n : String)
+theorem dispatchOne_inert (sp : Spec) (w : World) (n : Cmd)
     (h : isCompleted w.wf = true ∨ w.wf = .PAUSED) :
     ids (dispatchOne sp w n) = ids w ∧ (dispatchOne sp w n).wf = w.wf ∧
     (dispatchOne sp w n).pending = w.pending := by
@@ -36,7 +36,7 @@ theorem dispatchOne_inert (sp : Spec) (w : World) (n : String)
   · have hc : isCompleted St.PAUSED = false := by decide
     simp [h, hc, ids]
 
-theorem dispatch_inert (sp : Spec) (targets : List String) :
+theorem dispatch_inert (sp : Spec) (targets : List Cmd) :
     ∀ (w : World), (isCompleted w.wf = true ∨ w.wf = .PAUSED) →
       ids (dispatch sp w targets) = ids w ∧ (dispatch sp w targets).wf = w.wf ∧
       (dispatch sp w targets).pending = w.pending := by
@@ -52,8 +52,9 @@ theorem dispatch_inert (sp : Spec) (targets : List String) :
     have h3 := ih (dispatchOne sp w n) h2
     exact ⟨h3.1.trans h1.1, h3.2.1.trans h1.2.1, h3.2.2.trans h1.2.2⟩
 
-theorem dispatchOne_wf (sp : Spec) (w : World) (n : String) : (dispatchOne sp w n).wf = w.wf := by
+theorem dispatchOne_wf (sp : Spec) (w : World) (n : Cmd) : (dispatchOne sp w n).wf = w.wf := by
   unfold dispatchOne
+  simp only
   split
   · rfl
   · split
@@ -62,7 +63,7 @@ theorem dispatchOne_wf (sp : Spec) (w : World) (n : String) : (dispatchOne sp w 
       · split <;> (try split) <;> rfl
       · rfl
 
-theorem dispatch_wf (sp : Spec) (targets : List String) : ∀ w, (dispatch sp w targets).wf = w.wf := by
+theorem dispatch_wf (sp : Spec) (targets : List Cmd) : ∀ w, (dispatch sp w targets).wf = w.wf := by
   unfold dispatch
   induction targets with
   | nil => intro w; rfl
